@@ -1127,7 +1127,7 @@ def rule_barrier(facts):
     (locks, atomics, shared collections), nor by the batch."""
     r = RuleResult("C04-BARRIER", "every path that leaves a barrier function successfully without decrementing the countdown is decided by the partition's own "
                    "phase or by the operator's immutable configuration", floor=10)
-    for rec in facts.all_fns(["glaredb_core"]):
+    for rec in facts.all_fns(["glaredb_core"], contains="dec_by_one"):
         if "dec_by_one" not in str(rec["bbs"]) or "::tests::" in rec["id"]:
             continue
         fn = Fn(rec)
@@ -1192,7 +1192,7 @@ def rule_excl(facts):
     then enforced by the borrow checker for all schedules (no two workers can poll the same partition at once); what remains to be
     decided by the other rules is the shared operator state."""
     r = RuleResult("C04-EXCL", "operator poll methods take the partition state by `&mut` and the operator state by `&`; pipeline drivers take `&mut self`", floor=40)
-    for rec in facts.all_fns(["glaredb_core"]):
+    for rec in facts.all_fns(["glaredb_core"], contains="::poll_"):
         fid = rec["id"]
         if "::tests::" in fid or rec.get("dk") == "Closure" or "testutil" in fid:
             continue
